@@ -229,8 +229,7 @@ def _reported_count(rep, repo, st):
     ok, why = True, ''
     for vfi, vexpr in vals:
         ls = _dict_layers(repo, vfi, vexpr)
-        idx_count = [i for i, l in enumerate(ls) if l.kind == 'literal' and 'count' in (l.keys or []) and
-                     isinstance(l.values.get('count'), ast.Attribute) and l.values['count'].attr == 'total_count']
+        idx_count = [i for i, l in enumerate(ls) if l.kind == 'literal' and 'count' in (l.keys or []) and _is_total_count(st, l.values.get('count'))]
         other_count = [i for i, l in enumerate(ls) if l.kind == 'literal' and 'count' in (l.keys or []) and i not in idx_count]
         if not idx_count:
             ok, why = False, "no 'count' entry taken from total_count among %s" % [repr(l) for l in ls]
@@ -515,6 +514,19 @@ def _dict_layers(repo, fi, expr, depth=0):
                 continue
         out.append(l)
     return out
+
+
+def _is_total_count(mod, value):
+    """``<reservoir>.total_count``, possibly through a named temporary of the function the expression sits in"""
+    if value is None:
+        return False
+    e = value
+    fnode = mod.enclosing_function(value)
+    fi = mod.func_of_node(fnode) if fnode is not None else None
+    anchor = stmt_of(mod, value)
+    if fi is not None and anchor is not None and cfg_of(fi).nodes_of(anchor):
+        e = diffcon.Locals(fi.node, cfg_of(fi)).resolve(value, anchor)
+    return isinstance(e, ast.Attribute) and e.attr == 'total_count'
 
 
 def _mentions_describe(fi, layer):
